@@ -1,7 +1,52 @@
 (** C09 - Server and workers survive every message order and fault (no reachable panic). *)
-From HQ Require Import Base.Prelude Cluster.Types Cluster.Core Cluster.Reactor Cluster.Worker Cluster.Server Cluster.Sys Cluster.Monitors Cluster.ProofsJob Cluster.ProofsCore Cluster.ProofsMore.
+From HQ Require Import Base.Prelude Cluster.Types Cluster.Core Cluster.Reactor Cluster.Worker Cluster.Server Cluster.Sys Cluster.Monitors Cluster.ProofsJob Cluster.ProofsCore Cluster.ProofsMore Cluster.RejHyp Cluster.BijFinal Cluster.InvProcsDef Cluster.InvBundle Cluster.NoPanicC5 Cluster.NoPanicC6 Cluster.NoPanicC7 Cluster.NoPanicL0 Cluster.NoPanicL4 Cluster.NoPanicS7 Cluster.NoPanicS8 Cluster.NoPanicAll.
 From Coq Require Import ZArith.
 Local Open Scope N_scope.
+
+(** In EVERY reachable state of the system model (any history of client requests, worker
+    connections and losses, deliveries in any order, scheduler rounds with any well-formed answer,
+    task ends, launch failures, timers) no operation processed by the server itself - a client
+    request, a worker connection, a worker loss, a scheduler answer - makes it panic.  Every
+    unwrap / assert / unreachable / index / checked subtraction of the modelled code is a [Panic]
+    result of the model, so this covers all of them on these paths.
+    Hypotheses: on the history [op_wf] and [run_fresh] (RejHyp.v); on the operation [req_ok]:
+    distinct explicit ids in an array submit (true of every message: the real IntArray is a set)
+    and the executable [sol_ok] for a scheduler answer. *)
+Theorem C09_server_never_panics : forall ops reserve maxfill s outs o,
+  Forall op_wf ops -> run_fresh (init_sys reserve maxfill) ops = true -> run (init_sys reserve maxfill) ops = Ok (s, outs) ->
+  server_op o -> req_ok s o -> is_panic (step s o) = false.
+Proof. exact server_never_panics. Qed.
+
+(** Client requests are in fact always processed ([Ok]: handled or answered with an error, never
+    [Disabled] either) - "every such input is either handled or rejected with an error". *)
+Theorem C09_client_requests_total : forall ops reserve maxfill s outs o,
+  Forall op_wf ops -> run_fresh (init_sys reserve maxfill) ops = true -> run (init_sys reserve maxfill) ops = Ok (s, outs) ->
+  client_op o -> op_ok s o -> exists r, step s o = Ok r.
+Proof. exact client_requests_total_reachable. Qed.
+
+(** One step, from the invariants (the form the reachable one is built from). *)
+Theorem C09_scheduling_never_panics : forall s sol,
+  INV s -> PW s -> sol_ok (s_core s) sol = true -> is_panic (step s (OpSched sol)) = false.
+Proof. exact scheduling_never_panics. Qed.
+
+(** The server has a connection for exactly the workers the scheduler knows - in every reachable
+    state, no hypothesis ([send_worker] cannot fail). *)
+Theorem C09_workers_have_connections : forall ops r m s outs, run (init_sys r m) ops = Ok (s, outs) -> PW s.
+Proof. exact reachable_PW. Qed.
+
+(** Finding F27 (fixed): a task graph naming an undefined resource request reaches the assertion /
+    the index of [handle_submit_graph]; [step] now refuses it first, state untouched. *)
+Theorem C09_malformed_graph_refused :
+  handle_submit_graph (init_sys 0 2, []) None [] [(0, 0, 0%Z, CUnl, [])] None = Panic 224 /\
+  step (init_sys 0 2) (OpSubmitG None [] [(0, 0, 0%Z, CUnl, [])] None) = Ok (init_sys 0 2, [OResp (RSubmitErr 5 0)]).
+Proof. exact malformed_graph_panics_new_job. Qed.
+
+(** Non-vacuity: reachable states with assigned, prefilled, retracting and multi-node tasks satisfy
+    the hypotheses, with scheduler answers accepted by [sol_ok]; and every conjunct of [sol_ok] is
+    needed (six reachable states, six panics). *)
+Definition C09_hypotheses_satisfiable := sol_ok_satisfiable.
+Definition C09_sol_ok_needed := sol_ok_needed.
+Definition C09_client_theorem_applies := client_theorem_applies.
 
 (** Client requests cannot panic a consistent job layer: the counter subtractions of close / forget
     never underflow. *)
@@ -16,6 +61,14 @@ Proof. exact open_total. Qed.
 Theorem C09_job_layer_invariant : forall ops s s', HOK (hq_of s) -> jrun s ops = Ok s' -> HOK (hq_of s').
 Proof. exact jrun_ok. Qed.
 
+Print Assumptions C09_server_never_panics.
+Print Assumptions C09_client_requests_total.
+Print Assumptions C09_scheduling_never_panics.
+Print Assumptions C09_workers_have_connections.
+Print Assumptions C09_malformed_graph_refused.
+Print Assumptions C09_hypotheses_satisfiable.
+Print Assumptions C09_sol_ok_needed.
+Print Assumptions C09_client_theorem_applies.
 Print Assumptions C09_close_total.
 Print Assumptions C09_forget_total.
 Print Assumptions C09_open_total.
